@@ -674,6 +674,26 @@ fn main() {
     };
     let cx = &mut ctx;
 
+    // ---------------- `CurveConfig::cofactor_is_one` on synthetic cofactors ----------------
+    {
+        use ark_ec::CurveConfig;
+        macro_rules! cof {
+            ($($l:expr),*) => {{
+                struct K;
+                impl CurveConfig for K {
+                    type BaseField = ark_test_curves::bls12_381::Fq;
+                    type ScalarField = ark_test_curves::bls12_381::Fr;
+                    const COFACTOR: &'static [u64] = &[$($l),*];
+                    const COFACTOR_INV: Self::ScalarField = <ark_test_curves::bls12_381::Fr as ark_ff::Field>::ONE;
+                }
+                let r = guarded(|| if K::cofactor_is_one() { "1".into() } else { "0".into() });
+                cx.out.line(&format!("C12 cofone {}", limb_list(K::COFACTOR)), &r);
+            }};
+        }
+        cof!(); cof!(0); cof!(1); cof!(2); cof!(1, 0); cof!(1, 0, 0, 0); cof!(0, 1); cof!(1, 5); cof!(1, 0, 7);
+        cof!(1, 5, 0); cof!(1, 0, 0, 9); cof!(0, 0); cof!(u64::MAX); cof!(1, u64::MAX); cof!(2, 0); cof!(1, 1);
+    }
+
     // ---------------- toy curves (exhaustive) ----------------
     sw::<toy::Sw103>(cx, "toy.sw103", "fp");
     sw::<toy::Sw127>(cx, "toy.sw127", "fp");
